@@ -208,6 +208,40 @@ func (state *engineState) FindType(importer *goImporter, currentPkg *types.Packa
 	// It could be a good thing as Load() is not expected to be executed in
 	// concurrent environment, so write-locking is not a big deal there.
 
+	pos := strings.LastIndexByte(fqn, '.')
+
+	// A type that is found among the dependencies of the current package
+	// is an answer for that package only: another package may be unable
+	// to resolve the same name, or may resolve it to another type (its
+	// dependencies hold another version of that package than the one the
+	// importer finds). So it's never put into the engine-wide cache and it
+	// takes precedence over what the cache holds (otherwise the result of
+	// a lookup would depend on which package asked first); the importer,
+	// which serves a single run, remembers the answer, a nil type stands
+	// for "the package of that name is not among the dependencies".
+	if currentPkg != nil && pos != -1 {
+		key := depTypeKey{pkg: currentPkg, fqn: fqn}
+		typ, known := importer.depTypes[key]
+		if known && typ != nil {
+			return typ, nil
+		}
+		if !known {
+			if importer.depTypes == nil {
+				importer.depTypes = make(map[depTypeKey]types.Type)
+			}
+			pkgPath := fqn[:pos]
+			if directDep := findDependency(currentPkg, pkgPath); directDep != nil {
+				typ, err := lookupType(directDep, pkgPath, fqn[pos+1:])
+				if err != nil {
+					return nil, err
+				}
+				importer.depTypes[key] = typ
+				return typ, nil
+			}
+			importer.depTypes[key] = nil
+		}
+	}
+
 	state.typeByFQNMu.RLock()
 	cachedType, ok := state.typeByFQN[fqn]
 	state.typeByFQNMu.RUnlock()
@@ -215,35 +249,11 @@ func (state *engineState) FindType(importer *goImporter, currentPkg *types.Packa
 		return cachedType, nil
 	}
 
-	pos := strings.LastIndexByte(fqn, '.')
 	if pos == -1 {
 		return nil, fmt.Errorf("%s is not a valid FQN", fqn)
 	}
 	pkgPath := fqn[:pos]
 	objectName := fqn[pos+1:]
-
-	// A type that is found among the dependencies of the current package
-	// is an answer for that package only: another package may be unable
-	// to resolve the same name. So it's never put into the engine-wide cache
-	// (otherwise the result of a lookup would depend on which package
-	// asked first); the importer, which serves a single run, remembers it.
-	if currentPkg != nil {
-		key := depTypeKey{pkg: currentPkg, fqn: fqn}
-		if typ, ok := importer.depTypes[key]; ok {
-			return typ, nil
-		}
-		if directDep := findDependency(currentPkg, pkgPath); directDep != nil {
-			typ, err := lookupType(directDep, pkgPath, objectName)
-			if err != nil {
-				return nil, err
-			}
-			if importer.depTypes == nil {
-				importer.depTypes = make(map[depTypeKey]types.Type)
-			}
-			importer.depTypes[key] = typ
-			return typ, nil
-		}
-	}
 
 	// Code below is under a write critical section.
 	state.typeByFQNMu.Lock()
